@@ -30,7 +30,7 @@ import (
 )
 
 type Event struct {
-	K     string   `json:"k"` // http | txn | jstart | jbatch | jend | jabort | expire | pause | expire_old
+	K     string   `json:"k"` // http | txn | hstart | hbatch | hend | jstart | jbatch | jend | jabort | expire | pause | expire_old
 	Start bool     `json:"start"`
 	ID    int      `json:"id"` // 0 = no sync-id header
 	End   bool     `json:"end"`
@@ -68,11 +68,20 @@ type Obs struct {
 
 var countBroken bool
 
+// content codes 7 and 8: the entity additionally carries a nested sub-entity that is flagged deleted (the entity
+// itself is live; its stored json contains `"deleted":true` inside the property value)
+func nested(content int) string {
+	if content == 7 || content == 8 {
+		return fmt.Sprintf(`,"ex:line":{"id":"ex:l%d","deleted":true,"props":{"ex:q":%d},"refs":{}}`, content, content)
+	}
+	return ""
+}
+
 func payload(ents [][3]int) string {
 	var sb strings.Builder
 	sb.WriteString(`[{"id":"@context","namespaces":{"ex":"http://v/"}}`)
 	for _, e := range ents {
-		sb.WriteString(fmt.Sprintf(`,{"id":"ex:e%d","props":{"ex:p":%d},"refs":{}`, e[0], e[1]))
+		sb.WriteString(fmt.Sprintf(`,{"id":"ex:e%d","props":{"ex:p":%d%s},"refs":{}`, e[0], e[1], nested(e[1])))
 		if e[2] != 0 {
 			sb.WriteString(`,"deleted":true`)
 		}
@@ -89,7 +98,7 @@ func txnPayload(ents [][3]int) string {
 		if i > 0 {
 			sb.WriteString(",")
 		}
-		sb.WriteString(fmt.Sprintf(`{"id":"ex:e%d","props":{"ex:p":%d},"refs":{}`, e[0], e[1]))
+		sb.WriteString(fmt.Sprintf(`{"id":"ex:e%d","props":{"ex:p":%d%s},"refs":{}`, e[0], e[1], nested(e[1])))
 		if e[2] != 0 {
 			sb.WriteString(`,"deleted":true`)
 		}
@@ -189,6 +198,25 @@ func runOnce(c Case, dir string) (obs Obs, taint bool) {
 		sinks[n] = s
 		return s
 	}
+	// jobs with an HTTP sink: one real httpDatasetSink per job n, reused by all its runs, posting to this hub
+	var srv *httptest.Server
+	hsinks := map[int]*jobs.VerifC09HttpSink{}
+	hsinkOf := func(n int) *jobs.VerifC09HttpSink {
+		if srv == nil {
+			srv = httptest.NewServer(e)
+		}
+		if s, ok := hsinks[n]; ok {
+			return s
+		}
+		s := jobs.VerifC09NewHttpSink(srv.URL+"/datasets/d/entities", store)
+		hsinks[n] = s
+		return s
+	}
+	defer func() {
+		if srv != nil {
+			srv.Close()
+		}
+	}()
 	// pipeline mode: job run n is a goroutine executing FullSyncPipeline.sync over a scripted source
 	pipes := map[int]*jobs.VerifC09Pipeline{}
 	var allPipes []*jobs.VerifC09Pipeline
@@ -365,6 +393,22 @@ func runOnce(c Case, dir string) (obs Obs, taint bool) {
 				rec := httptest.NewRecorder()
 				e.ServeHTTP(rec, req)
 				st.Status = statusClass(rec.Code)
+			case "hstart":
+				if err := hsinkOf(ev.N).Start(); err != nil {
+					st.Status = 6
+				}
+			case "hbatch":
+				ents, err := parse(ev.Ents)
+				if err == nil {
+					err = hsinkOf(ev.N).Process(ents)
+				}
+				if err != nil {
+					st.Status = 6
+				}
+			case "hend":
+				if err := hsinkOf(ev.N).End(); err != nil {
+					st.Status = 6
+				}
 			case "jstart":
 				if c.Pipeline {
 					// an earlier unfinished run of n stays blocked in its source: an abandoned job
